@@ -66,7 +66,7 @@ int main(int argc, char** argv) {
     const geodtab::Ell& E = ells[ei];
     if (!T && !E.quick) continue;
     Solvers S;
-    const std::vector<geodlat::Pair> pairs = geodlat::inverse_pairs(E, T);
+    const std::vector<geodlat::Pair> pairs = geodlat::inverse_pairs(E, T ? 2 : 0);
     const ld tolv[3] = {geodtab::tol_series(E), geodtab::tol_exact(E), geodtab::tol_exact(E)};
     const ld tolA[3] = {geodtab::tol_area_series(E), geodtab::tol_area_exact(E), geodtab::tol_area_exact(E)};
     for (size_t pi = 0; pi < pairs.size(); ++pi) {
@@ -90,7 +90,7 @@ int main(int argc, char** argv) {
         auto where = [&] { return E.name + " " + fx(P.lat1) + " " + fx(P.lon1) + " " + fx(P.lat2) + " " + fx(P.lon2) + " fam=" + P.fam + " " + svn; };
         auto bad = [&](const char* kind, const std::string& k2, const std::string& msg) {
           char inp[160]; snprintf(inp, sizeof inp, "%.12g %.12g %.12g %.12g", P.lat1, P.lon1, P.lat2, P.lon2);
-          ctx.fail(key((std::string(kind) + k2).c_str()), where() + ": " + msg, {{"kind", kind}, {"ell", E.name}, {"solver", svn}, {"family", std::string(1, P.fam)}, {"input", inp}});
+          ctx.fail(key((std::string(kind) + k2).c_str()), where() + ": " + msg, {{"kind", kind}, {"ell", E.name}, {"solver", svn}, {"family", std::string(1, P.fam)}, {"input", inp}, {"regime", geodlat::pair_regime(E, P, have[sv] ? base[sv].a12 : 0.0)}});
         };
         Res R;
         {
@@ -201,7 +201,7 @@ int main(int argc, char** argv) {
         if (!(e <= 1)) {
           Ctx::Case cs(ctx);
           ctx.fail("e" + std::to_string(ei) + "/p" + std::to_string(pi) + "/pair" + std::to_string(i) + std::to_string(j), E.name + " " + fx(P.lat1) + " " + fx(P.lon1) + " " + fx(P.lat2) + " " + fx(P.lon2) + ": " + svname(i) + " and " + svname(j) + " differ in " + what + " by " + fmtl(e) + " x tolerance",
-                   {{"kind", "pairwise"}, {"ell", E.name}, {"family", std::string(1, P.fam)}});
+                   {{"kind", "pairwise"}, {"ell", E.name}, {"family", std::string(1, P.fam)}, {"regime", geodlat::pair_regime(E, P, base[j].a12)}});
         }
       }
     }
